@@ -128,3 +128,15 @@ Theorem C04_symmetric_pipeline_stationary : forall bonds nv L beta,
         (pipeline_cfg_v (update_cfg (met_update (qmc_ham bonds) beta))).
 Proof. intros bonds nv L beta Hs. exact (metropolis_pipeline_v_stationary (qmc_ham bonds) Hs nv L beta). Qed.
 Print Assumptions C04_symmetric_pipeline_stationary.
+
+(* unconditional form for the generic sampler's cluster pipeline: for every interaction list whose table is
+   flip-symmetric on its legal operators and whose terms name existing variables, on the COMPLETE configuration
+   space, with the model's own cluster update (the decomposition is proved to yield validated labellings) *)
+From QmcV Require Import Proofs.UnconditionalPipeline.
+Theorem C04_cluster_pipeline_stationary_complete_space : forall bonds nv L beta,
+  sym_ham (qmc_ham bonds) -> ham_vars_ok (qmc_ham bonds) nv ->
+  (0 < beta)%Q -> (0 < h_nbonds (qmc_ham bonds))%nat ->
+  wstat (canon (qmc_ham bonds) (all_substates nv) L) (fun c => sse_weight (qmc_ham bonds) beta (snd c))
+        (pipeline_cfg (update_cfg (met_update (qmc_ham bonds) beta))).
+Proof. intros bonds nv L beta Hs Hr. exact (metropolis_pipeline_stationary_canon (qmc_ham bonds) Hs nv L Hr beta). Qed.
+Print Assumptions C04_cluster_pipeline_stationary_complete_space.
